@@ -160,7 +160,18 @@ class ProducersScan(FiniteTask):
                 ok, vals = True, vals + ["(decided by the function's own contract)"]
             emit(f"C05/frame/{fn}:{fname}/queues-only-Table-9-10-events", ok, detail=f"line {line}: {vals}")
         prod = {(fn, fname) for fn, fname, _l, _v in sites}
-        emit("C05/frame/the-set-of-event-producing-functions-is-the-documented-one", prod == self.KNOWN, detail=str(sorted(prod ^ self.KNOWN)))
+        # a put() that was moved into a private helper of a documented producer still belongs to that producer (scanutil)
+        from contracts.scanutil import callers_by_name, roots_of
+        callers = callers_by_name(exclude=("tests", "benchmarks"))
+        unknown, covered = set(), set()
+        for site in prod:
+            r = roots_of(site, self.KNOWN, callers)
+            if r is None:
+                unknown.add(site)
+            else:
+                covered |= r
+        missing = self.KNOWN - covered
+        emit("C05/frame/the-set-of-event-producing-functions-is-the-documented-one", not unknown and not missing, detail=str(sorted(unknown | missing)))
 
 
 class ClosureTask(FiniteTask):
